@@ -636,6 +636,12 @@ pub fn contexts() -> Vec<Context> {
         ("\\b□", cat(vec![Node::Assert(A::WordB), h0()])),
         ("□\\b", cat(vec![h0(), Node::Assert(A::WordB)])),
         ("\\B□\\B", cat(vec![Node::Assert(A::NotWordB), h0(), Node::Assert(A::NotWordB)])),
+        // a word boundary inside a group whose variable tail is followed only by anchors (or by
+        // something that can fail): the tail must be able to give characters back to the anchor
+        ("(\\b□)$", cat(vec![grp(cat(vec![Node::Assert(A::WordB), h0()])), Node::Assert(A::End)])),
+        ("^(\\b□)$", cat(vec![Node::Assert(A::Start), grp(cat(vec![Node::Assert(A::WordB), h0()])), Node::Assert(A::End)])),
+        ("(?:\\b(?:□|□'))(?m:$)", cat(vec![Node::Concat(vec![Node::Assert(A::WordB), alt(vec![h0(), h1()])]), Node::Assert(A::EndLine)])),
+        ("(\\b□)□'", cat(vec![grp(cat(vec![Node::Assert(A::WordB), h0()])), h1()])),
     ];
     // an atomic group (and a look-ahead) whose only choice point is a quantified back-reference, in
     // every quantifier form the compiler lowers differently (greedy/lazy, with and without the
